@@ -13,7 +13,7 @@ import os
 import sys
 
 SHAPES = ["unit", "tuple", "named", "enum", "generic", "generic_e_where", "generic_e_inline"]
-RETS = ["none", "unit", "u32", "result", "std_result", "path_result", "path4_result", "result_longerr", "alias"]
+RETS = ["none", "unit", "u32", "boxed_any", "result", "std_result", "path_result", "path4_result", "result_longerr", "alias"]
 ATTRS = ["plain", "result", "no_log", "result_no_log", "bogus", "assign"]
 MSGV = ["plain", "generic_extra"]
 
@@ -21,6 +21,7 @@ RET_TYPE = {
     "none": None,
     "unit": "()",
     "u32": "u32",
+    "boxed_any": "Box<dyn std::any::Any + Send>",
     "result": "Result<u32, String>",
     "std_result": "std::result::Result<u32, String>",
     "path_result": "other::Result<u32>",
@@ -87,6 +88,9 @@ def body_for(ret):
         return "let _ = flag;", None
     if ret == "u32":
         return "if flag { 41 } else { 42 }", None
+    if ret == "boxed_any":
+        # a reply that is itself a type-erased box (the reply channel boxes replies as `dyn Any` too)
+        return "if flag { Box::new(41u32) as Box<dyn std::any::Any + Send> } else { Box::new(String::from(\"forty-two\")) }", None
     if ret == "result_longerr":
         # an error text of several kilobytes of three-byte characters (with one byte of padding so that no power-of-two
         # offset is a character boundary), the way an error echoing a payload in some scripts looks
@@ -99,6 +103,8 @@ def expected_reply(ret, flag):
         return "()"
     if ret == "u32":
         return "41" if flag else "42"
+    if ret == "boxed_any":
+        return "Any { .. }"
     if ret == "result_longerr" and flag:
         return 'Err("boom x' + "\ud55c\uae00" * 1500 + '")'
     return 'Err("boom")' if flag else "Ok(1)"
